@@ -7,6 +7,14 @@
 //!   for n in 0..=P (quick: the first and last 20 and 150 evenly spread; thorough: all)
 //!   `begin T build(cancel=n, same seed) abort dump`; finally the retry
 //!   `begin T build(cancel=-) dump commit dump`. threads=1 everywhere.
+//!   Then the *memory-limited large cases* (one index, dims 4-8, 450-700 items, 1-2 trees,
+//!   split_after 8-20, `mem=` 2-8 pages, so the re-split loop runs several batches of >= 200
+//!   items): the updates are committed first in their own transaction, the sweep is only
+//!   `begin build(cancel=n) abort dump`, over ~120 points spread over the whole build plus its
+//!   last 30 polls (thorough: every 3rd). Three flavours: items committed and never built; a
+//!   built index with 50 deletions + 300 insertions committed but not built; the first one in
+//!   the smallest map in which the items fit but the build answers `MDB_MAP_FULL` (the sweep
+//!   then covers the polls up to the failure).
 //! * **mapsize** — the same generated history (profile `c10map`) under 12 map sizes from
 //!   64 KiB to 256 MiB, one case each; the first `MDB_MAP_FULL` is followed by `abort`,
 //!   `dump` and the end of the case.
@@ -239,6 +247,181 @@ fn sweep_case(case: u64, seed: u64, tier: Tier, out: &mut dyn Write) -> Result<(
     Ok(())
 }
 
+#[derive(Clone, Copy, Debug, PartialEq, Eq)]
+enum MemFlavour {
+    /// items committed, never built
+    FirstBuild,
+    /// a built index, then 50 deletions and 300 insertions committed but not built
+    Incremental,
+    /// FirstBuild in a map so small that the build runs into MDB_MAP_FULL
+    TinyMap,
+}
+
+/// quick: ~120 points spread over the whole build plus the last 30 polls; thorough: every 3rd.
+fn mem_sweep_points(polls: usize, tier: Tier) -> Vec<usize> {
+    let mut v: Vec<usize> = if tier == Tier::Thorough {
+        (0..=polls).step_by(3).collect()
+    } else {
+        (0..120).map(|i| i * polls / 119).collect()
+    };
+    v.extend(polls.saturating_sub(29)..=polls);
+    v.sort_unstable();
+    v.dedup();
+    v
+}
+
+struct MemPlan {
+    m: Mini,
+    setup: Vec<Op>,
+    setup_build: Option<BuildOpts>,
+    pending: Vec<Op>,
+    opts: BuildOpts,
+}
+
+/// The memory-limited large case: one index, dims 4-8, 450-700 items, 1-2 trees, small
+/// buckets, a memory hint of a few pages: the re-split loop runs several batches of >= 200
+/// items and the nested insertion pass is exercised.
+fn mem_plan(seed: u64, flavour: MemFlavour) -> MemPlan {
+    let mut m = Mini::new(seed, seed % 7);
+    m.w.dims = m.r.urange(4, 8);
+    let mut setup = Vec::new();
+    let mut setup_build = None;
+    let pending;
+    if flavour == MemFlavour::Incremental {
+        let n0 = m.r.urange(400, 600);
+        setup = m.adds(n0);
+        setup_build = Some(BuildOpts {
+            ntrees: Some(m.r.urange(1, 2)),
+            split: Some(m.r.urange(8, 20)),
+            mem: None,
+            cancel: None,
+            threads: 1,
+            seed: m.r.next_u64(),
+            tmpdir: None,
+        });
+        let mut ops = m.churn(50, 0);
+        ops.extend(m.adds(300));
+        pending = ops;
+    } else {
+        let n = m.r.urange(450, 700);
+        pending = m.adds(n);
+    }
+    let opts = BuildOpts {
+        ntrees: Some(m.r.urange(1, 2)),
+        split: Some(m.r.urange(8, 20)),
+        mem: Some(4096 * m.r.urange(2, 8)),
+        cancel: None,
+        threads: 1,
+        seed: m.r.next_u64(),
+        tmpdir: None,
+    };
+    MemPlan { m, setup, setup_build, pending, opts }
+}
+
+/// Commits the setup (built) and the pending updates (not built). Returns false on a panic
+/// or when something did not fit.
+fn mem_prepare(ex: &mut Executor, plan: &MemPlan, dumps: bool) -> bool {
+    let all_ok = |ex: &mut Executor, ops: &[Op]| ops.iter().all(|op| ex.exec(op) == Outcome::Ok);
+    if let Some(b) = &plan.setup_build {
+        if ex.exec(&Op::Begin) != Outcome::Ok
+            || !all_ok(ex, &plan.setup)
+            || ex.exec(&Op::Build(plan.m.w, b.clone())) != Outcome::Ok
+            || ex.exec(&Op::Commit) != Outcome::Ok
+        {
+            return false;
+        }
+    }
+    if ex.exec(&Op::Begin) != Outcome::Ok
+        || !all_ok(ex, &plan.pending)
+        || ex.exec(&Op::Commit) != Outcome::Ok
+    {
+        return false;
+    }
+    !dumps || ex.exec(&Op::Dump) == Outcome::Ok
+}
+
+fn mem_sweep_case(
+    case: u64,
+    seed: u64,
+    tier: Tier,
+    flavour: MemFlavour,
+    out: &mut dyn Write,
+) -> Result<(), String> {
+    let plan = mem_plan(seed, flavour);
+    let w = plan.m.w;
+    // the tiny map: the smallest size in which the items can be committed but not built
+    let mut mapsize = DEFAULT_MAPSIZE;
+    if flavour == MemFlavour::TinyMap {
+        let mut found = None;
+        for pages in (16..=256).step_by(4) {
+            let size = pages * 4096;
+            let env = CaseEnv::new(size)?;
+            let mut sink = std::io::sink();
+            let mut ex = Executor::new(&env, &mut sink);
+            if !mem_prepare(&mut ex, &plan, false) {
+                continue;
+            }
+            ex.exec(&Op::Begin);
+            ex.exec(&Op::Build(w, plan.opts.clone()));
+            let full = ex.last_res.starts_with("err mapfull");
+            ex.finish();
+            if full {
+                found = Some(size);
+            }
+            break;
+        }
+        match found {
+            Some(size) => mapsize = size,
+            None => {
+                header(out, case, seed, mapsize);
+                let _ = writeln!(out, "note faults mem-sweep TinyMap: no map size makes the build run into MDB_MAP_FULL");
+                return Ok(());
+            }
+        }
+    }
+    let env = CaseEnv::new(mapsize)?;
+    header(out, case, seed, mapsize);
+    let mut ex = Executor::new(&env, out);
+    go!(ex, Op::Note(format!(
+        "faults mem-sweep {flavour:?} index={} metric={} dims={} pending_ops={}",
+        w.index,
+        w.metric.name(),
+        w.dims,
+        plan.pending.len()
+    )));
+    if !mem_prepare(&mut ex, &plan, true) {
+        return Ok(());
+    }
+    // the reference build
+    go!(ex, Op::Begin);
+    go!(ex, Op::Build(w, plan.opts.clone()));
+    let polls = ex.last_polls;
+    let reference_ok = ex.last_res.starts_with("ok");
+    if reference_ok {
+        go!(ex, Op::Dump);
+    }
+    go!(ex, Op::Abort);
+    go!(ex, Op::Dump);
+    // the sweep over the whole build
+    for n in mem_sweep_points(polls, tier) {
+        go!(ex, Op::Begin);
+        go!(ex, Op::Build(w, BuildOpts { cancel: Some(n), ..plan.opts.clone() }));
+        go!(ex, Op::Abort);
+        go!(ex, Op::Dump);
+    }
+    if reference_ok {
+        go!(ex, Op::Begin);
+        go!(ex, Op::Build(w, plan.opts.clone()));
+        go!(ex, Op::Dump);
+        go!(ex, Op::Commit);
+        go!(ex, Op::Dump);
+        go!(ex, Op::Open(w));
+        go!(ex, Op::RItemIds(w));
+    }
+    ex.finish();
+    Ok(())
+}
+
 pub const MAP_SIZES: [usize; 12] = [
     64 << 10,
     96 << 10,
@@ -394,6 +577,15 @@ pub fn run(o: &FaultOpts, out: &mut dyn Write) -> Result<u64, String> {
             sweep_case(case, case_seed(o.seed ^ 0x7377_6565_70, k), o.tier, out)?;
             let _ = writeln!(out, "endcase");
             case += 1;
+        }
+        // the memory-limited large cases
+        let rounds = if quick { 1 } else { 4 };
+        for k in 0..rounds {
+            for flavour in [MemFlavour::FirstBuild, MemFlavour::Incremental, MemFlavour::TinyMap] {
+                mem_sweep_case(case, case_seed(o.seed ^ 0x6d65_6d73, k * 3 + flavour as u64), o.tier, flavour, out)?;
+                let _ = writeln!(out, "endcase");
+                case += 1;
+            }
         }
     }
     if all || o.part == "mapsize" {
